@@ -353,6 +353,21 @@ def generate(repo, errors=None):
         return ["Definition src_b64_std : list N := %s." % coq_bytes(b64[0]), "Definition src_b64_url : list N := %s." % coq_bytes(b64[1]),
                 "Definition src_b32 : list N := %s." % coq_bytes(b32[0]), "Definition src_b36 : list N := %s." % coq_bytes(b36[0])]
     section("codec alphabets", codecs)
+
+    def hmac_consts():
+        txt = strip_comments(open(os.path.join(repo, "src", "hmac.cpp"), errors="replace").read())
+        pads = re.findall(r"(\w+)\s*\[\s*i\s*\]\s*=\s*(k\s*\^\s*0[xX][0-9a-fA-F]+)\s*;", txt)
+        if [n for n, _ in pads] != ["ipad", "okeypad_", "ikeypad", "okeypad"]:
+            raise TranslateError("hmac.cpp: pad assignments found: %s" % [n for n, _ in pads])
+        o = ["Module HM."]
+        for n, e in pads:
+            o.append("Definition src_%s (W k : N) : N := %s." % (n.rstrip("_") + ("_ctx" if n.endswith("_") or n == "ipad" else ""), expr(e, {"k": "k"})))
+        m = re.search(r'static\s+const\s+char\s*\*\s*lut\s*=\s*"([^"]*)"\s*;', txt)
+        if not m: raise TranslateError("hmac.cpp: hex lut not found")
+        o.append("Definition src_hex_lut : list N := %s." % coq_bytes(m.group(1)))
+        o.append("End HM.")
+        return o
+    section("hmac constants", hmac_consts)
     return "\n".join(out) + "\n"
 
 
